@@ -140,3 +140,47 @@ Definition h_expect_ecdh (d inlen prefix x y : Z) : string :=
     end
   | None => "-1"
   end.
+
+(* ---------------- scalar generation, hashing to a point, key digest ---------------- *)
+From GmVerif Require Import Hash.SM3.
+Definition bytes_of_hex (s : string) : list Z := map Z.of_N (hex_to_bytes s).
+Definition draw_of (s : string) : option bigZ :=
+  if String.eqb s "FAIL" then None else Some (B (le_val (bytes_of_hex s))).
+Definition h_randrange (range r0 : Z) (draws : list string) : string :=
+  let '(ret, r, _) := rand_range BigOps ltB (B range) (map draw_of draws) (B r0) in
+  dz ret ++ " " ++ hb r ++ " | " ++
+  vd (negb (ret =? 1) || (BigZ.to_Z r <? range)) "accepted-value-not-below-range".
+Definition h_keygen (d0 : Z) (draws : list string) : string :=
+  let '(ret, d) := key_generate_loop BigOps ltB KpB 8 (BigZ.sub bn b1) (map draw_of draws) (B d0) in
+  if ret =? 1 then
+    let dz_ := BigZ.to_Z d in
+    match point_mul_generator _ FpB addaff_cur tabB dz_ with
+    | Some P => "1 " ++ hb d ++ " " ++ hj P ++ " | " ++
+                vd ((1 <=? dz_) && (dz_ <=? sm2_n - 2) && spt_eqb (decode P) (sm2_mulG BigOps dz_) &&
+                    match decode P with None => false | _ => true end) "generated-key-out-of-range-or-wrong-public-key"
+    | None => "MODEL-OOB-TABLE-INDEX"
+    end
+  else "-1 | ok".
+Definition sm3z (bs : list Z) : list Z := map Z.of_N (sm3 (map Z.to_N bs)).
+Definition h_fromhash (X0 Y0 Zc0 : Z) (data : string) (odd : Z) : string :=
+  match point_from_hash BigOps ltB KpB sm3z 64 (Bj X0 Y0 Zc0) (bytes_of_hex data) (odd =? 1) with
+  | None => "MODEL-FUEL"
+  | Some (r, P) =>
+    rline r P ++ " | " ++
+    vd (negb (r =? 1) ||
+        match decode P with
+        | Some (x, y) => sm2_on_curve BigOps (Some (x, y)) && Bool.eqb (Z.odd (BigZ.to_Z y)) (odd =? 1)
+        | None => false
+        end) "hash-to-point-result-not-on-curve-or-wrong-parity"
+  end.
+(* sm2_public_key_digest = SM3(04 || x || y) *)
+Definition h_keydigest (X Y Zc : Z) : string :=
+  match point_to_uncompressed BigOps ltB KpB (Bj X Y Zc) with
+  | None => "-1"
+  | Some (x, y) =>
+    "1 " ++ bytes_to_hex (map Z.to_N (sm3z (4 :: bytes_of_hex (hb x) ++ bytes_of_hex (hb y))))
+  end.
+(* sm2_z256_point_from_hex / point_equ_hex on the 128 hex digits of (x, y) *)
+Definition h_hexpt (x y : Z) : string :=
+  let '(r, P) := point_from_bytes BigOps ltB KpB (Bj 0xa5 0xa5 0xa5) (B x) (B y) in
+  if r =? 1 then "1 " ++ hj P ++ " 1" else dz r.
